@@ -3,6 +3,7 @@ package props
 import (
 	"fmt"
 	"go/token"
+	"go/types"
 	"strings"
 
 	"golang.org/x/tools/go/ssa"
@@ -29,6 +30,9 @@ func runC15(c *Ctx) {
 	c.Rule("C15.O5", "E4", "Parse: errors ErrMessageTooLarge and ErrControlMessageTooBig pass WriteClose(1009, ...) before the return", 1)
 	c.Rule("C15.O6", "E8", "isMessageTooLarge(n) == (MessageLengthLimit > 0 && n > MessageLengthLimit)", 1)
 	c.Rule("C15.O7", "E5", "inside the package control frames are sent through WriteMessage, the path that refuses payloads over 125 bytes: no call of WriteFrame / writeFrame with a constant control opcode elsewhere", 1)
+	c.Rule("C15.O9", "E5", "an error that is wrapped on the WebSocket read path keeps its identity: every fmt.Errorf in the websocket package that takes an error argument wraps it with %w, so the errors.Is tests that choose the 1009 answer still recognise ErrMessageTooLarge", 1)
+	c.Rule("C15.O10", "E5", "a websocket.commonFields value is never rebuilt field by field: a function that fills a fresh commonFields sets MessageLengthLimit (a copy that leaves it out runs with 0, which means unlimited)", 1)
+	c15Round5(c)
 	c.Rule("C15.O8", "E6", "the pre-check's sum (assembled so far + declared length) cannot wrap: the declared length is a peer-chosen 63-bit value, so the sum is tested for < 0 (or the length bounded) before it is compared with the limit", 1)
 	c15SumNoWrap(c)
 	c15ControlSenders(c)
@@ -483,4 +487,90 @@ func c15SumNoWrap(c *Ctx) {
 		}
 	}
 	c.Cond(bad == "", "C15.O8", fnKey(c.P, nf, "pre-check sum cannot wrap"), c.FnPos(nf), "sum tested for < 0 (or operands bounded) before the limit test", bad)
+}
+
+// c15Round5: O9, O10.
+func c15Round5(c *Ctx) {
+	errT := types.Universe.Lookup("error").Type().Underlying().(*types.Interface)
+	n := 0
+	bad := ""
+	for _, f := range c.pkgFuncs("websocket") {
+		for _, cs := range c.P.CallsNamed(f, "fmt.Errorf") {
+			format, ok := constString(cs.Common.Args[0])
+			if !ok {
+				continue
+			}
+			n++
+			hasErr := false
+			// the variadic slice: stores into its backing array
+			if len(cs.Common.Args) > 1 {
+				if sl, ok := cs.Common.Args[1].(*ssa.Slice); ok {
+					if arr, ok := sl.X.(*ssa.Alloc); ok {
+						for _, r := range *arr.Referrers() {
+							ia, ok := r.(*ssa.IndexAddr)
+							if !ok {
+								continue
+							}
+							for _, r2 := range *ia.Referrers() {
+								st, ok := r2.(*ssa.Store)
+								if !ok {
+									continue
+								}
+								v := st.Val
+								if mi, ok := v.(*ssa.MakeInterface); ok {
+									v = mi.X
+								} else if ci, ok := v.(*ssa.ChangeInterface); ok {
+									v = ci.X
+								}
+								if types.Implements(v.Type(), errT) {
+									hasErr = true
+								}
+							}
+						}
+					}
+				}
+			}
+			if hasErr && !strings.Contains(format, "%w") {
+				bad = "fmt.Errorf at " + c.Pos(cs.In) + " formats an error argument without %w (" + format + "): the result no longer matches errors.Is(err, ErrMessageTooLarge), so an inflated message over the limit fails the connection without the 1009 answer"
+			}
+		}
+	}
+	c.Cond(bad == "", "C15.O9", "websocket: wrapped errors keep their identity", "", fmt.Sprintf("%d fmt.Errorf site(s)", n), bad)
+
+	// O10
+	nb := 0
+	bad = ""
+	for _, f := range c.pkgFuncs("websocket") {
+		fresh := map[*ssa.Alloc]map[string]bool{}
+		for _, b := range f.Blocks {
+			for _, in := range b.Instrs {
+				st, ok := in.(*ssa.Store)
+				if !ok {
+					continue
+				}
+				fa, ok := st.Addr.(*ssa.FieldAddr)
+				if !ok || !strings.HasPrefix(c.P.FieldKey(fa), "websocket.commonFields.") {
+					continue
+				}
+				a, ok := ir.Root(fa.X).(*ssa.Alloc)
+				if !ok {
+					continue
+				}
+				if fresh[a] == nil {
+					fresh[a] = map[string]bool{}
+				}
+				fresh[a][strings.TrimPrefix(c.P.FieldKey(fa), "websocket.commonFields.")] = true
+			}
+		}
+		for a, set := range fresh {
+			if len(set) < 3 {
+				continue
+			}
+			nb++
+			if !set["MessageLengthLimit"] {
+				bad = c.P.FuncName(f) + " fills a fresh commonFields at " + c.Pos(a) + " field by field and leaves MessageLengthLimit out: the connection that gets it accepts messages, fragment sums and inflated sizes of any length"
+			}
+		}
+	}
+	c.Cond(bad == "", "C15.O10", "websocket: commonFields built with the limit", "", fmt.Sprintf("%d builder(s)", nb), bad)
 }
